@@ -56,69 +56,51 @@ class _UpDownLock:
         self._owners = defaultdict(int)
 
         # Is the lock unlocked?  Handles threads waiting for
-        # unlock.
-        self._is_unlocked = threading.Condition(threading.RLock())
+        # unlock.  The condition shares self._lock, so that testing
+        # the lock state and starting to wait for it to change is a
+        # single atomic step: a release can't slip in between and have
+        # its notification lost.
+        self._is_unlocked = threading.Condition(self._lock)
 
     def acquire(self, blocking: bool, timeout: float, is_down: bool) -> bool:
         """Acquire the lock in the specified state."""
-
-        now = time.monotonic()
         me = threading.get_ident()
 
-        # Try to acquire the lock
-        with self._lock:
-            if is_down:
-                ok_to_lock = self.count <= 0
-            else:
-                ok_to_lock = self.count >= 0
+        # A single deadline for the whole call, however often we're woken
+        end_at = None if timeout < 0 else time.monotonic() + timeout
 
-            if ok_to_lock:
-                if is_down:
-                    self.count -= 1
-                else:
-                    self.count += 1
-                self._owners[me] += 1
-                return True
-
-            # If we already hold the lock in the other state, fail
-            if self._owners[me] > 0:
-                raise RuntimeError("Can't acquire both locking states.")
-
-        # If not blocking, fail
-        if not blocking:
-            return False
-
-        # Otherwise, wait until unlocked
         with self._is_unlocked:
-            if timeout < 0:
-                self._is_unlocked.wait()
-            else:
-                end_at = None
-                notified = False
+            while True:
+                # Try to acquire the lock
+                if is_down:
+                    ok_to_lock = self.count <= 0
+                else:
+                    ok_to_lock = self.count >= 0
 
-                # Wait until either we're notified or else we timeout
-                while not notified and (end_at is None or time.monotonic() < end_at):
-                    # We do it this way to ensure this loop runs at least once
-                    if end_at is None:
-                        end_at = now + timeout
+                if ok_to_lock:
+                    if is_down:
+                        self.count -= 1
+                    else:
+                        self.count += 1
+                    self._owners[me] += 1
+                    return True
 
-                    # This might be negative; threading.condition is okay
-                    # with that (essentially it makes wait() non-blocking)
-                    timeout = end_at - time.monotonic()
-                    notified = self._is_unlocked.wait(timeout)
+                # If we already hold the lock in the other state, fail
+                if self._owners[me] > 0:
+                    raise RuntimeError("Can't acquire both locking states.")
 
-                # If we're out of time, fail
-                if not notified:
+                # If not blocking, fail
+                if not blocking:
                     return False
 
-                # If we were notfied, but we're also out of time, convert to
-                # non blocking, to try one last time
-                if timeout <= 0:
-                    blocking = False
-
-        # If we got here, we were notified of the lock unlocking; try again,
-        # possibly with a reduced timeout and/or converted to non-blocking
-        return self.acquire(blocking, timeout, is_down)
+                # Otherwise, wait until unlocked (or out of time), then try again
+                if end_at is None:
+                    self._is_unlocked.wait()
+                else:
+                    remaining = end_at - time.monotonic()
+                    if remaining <= 0:
+                        return False
+                    self._is_unlocked.wait(remaining)
 
     def release(self, is_down: bool) -> None:
         """Release the lock with the given state.
@@ -151,10 +133,10 @@ class _UpDownLock:
                 self.count -= 1
             self._owners[me] -= 1
 
-            # If we're now unlocked, notifiy waiters
+            # If we're now unlocked, notifiy waiters (the condition
+            # shares self._lock, which we're holding)
             if self.count == 0:
-                with self._is_unlocked:
-                    self._is_unlocked.notify_all()
+                self._is_unlocked.notify_all()
 
 
 class _UpDownAccessor:
